@@ -6,8 +6,8 @@ finite space (see NOTES.md):
   U1 include   every header under include/xtl x {single, double include} x {g++, clang++} x {c++14,17,20}
                x {exceptions, -fno-exceptions}: -fsyntax-only -Werror=return-type on a generated TU whose only
                includes are the header (once / twice), followed by a tiny witness that uses the header.
-  U2 pairs     every ordered pair (a, b), a != b, of headers in one TU (quick: g++ c++14 exceptions; thorough: all 12
-               configurations), followed by both witnesses.
+  U2 pairs     every ordered pair (a, b), a != b, of headers in one TU, followed by both witnesses (thorough tier: all
+               12 configurations; the quick tier has no U2, see tier_space()).
   U3 link      per configuration: two TUs that include ALL headers (alphabetical / reverse order) and use every
                non-template function (link_body.inc), linked as a 1-TU and as a 2-TU program, both run; for g++
                additionally TU0 with -fkeep-inline-functions (every non-template inline function is emitted) whose
@@ -42,7 +42,6 @@ CCS = ("g++", "clang++")
 STDS = ("c++14", "c++17", "c++20")
 EXCS = ("exceptions", "fno-exceptions")
 ALL_CFGS = [(cc, std, exc) for cc in CCS for std in STDS for exc in EXCS]
-QUICK_PAIR_CFGS = [("g++", "c++14", "exceptions")]
 
 # own wall-clock budgets (seconds after the start of the run); the driver's deadline applies as well
 BUDGET = {"quick": 170, "thorough": 1680}
@@ -553,9 +552,7 @@ def run_errpaths_cfg(ctx, cfg, bud, only=None):
     exes = {}
     if rc != 0:
         # attribute the build failure to scenarios: build each one alone
-        rcl, lst, _ = (1, "", "")
         names = scenario_table()
-        ok_any = False
         for k, (name, exc) in sorted(names.items()):
             if only is not None and k not in only:
                 continue
@@ -565,7 +562,6 @@ def run_errpaths_cfg(ctx, cfg, bud, only=None):
             if rc1 != 0:
                 out["build"].append((k, name, first_error(err1)))
             else:
-                ok_any = True
                 exes[k] = e1
         if not out["build"] and only is None:
             raise vlib.HarnessError("errpaths.cpp fails to build as a whole but every scenario builds alone [%s]: %s" % (cfg_name(cfg), err[-1500:]))
